@@ -44,6 +44,9 @@ func (c *Ctx) Add(e *driver.Env) {
 	for k, v := range e.Stats {
 		c.Stats[k] += v
 	}
+	for k, v := range e.CBCounts() {
+		c.Stats[k] += v
+	}
 	if e.F != nil {
 		c.Stats["file.reads"] += e.F.NReads
 		c.Stats["file.writes"] += e.F.NWrites
